@@ -91,7 +91,8 @@ def decl_to_md(d):
     if k == "inject":
         return {"metadata_type": "inject_code", "name": d[1], "body_includes": list(d[2])}
     if k == "job":
-        return {"metadata_type": "add_job_script", "name": d[1], "script": list(d[2]), "depends_on": list(d[3])}
+        # depends_on is an optional key: a block without dependencies is sent without it
+        return {"metadata_type": "add_job_script", "name": d[1], "script": list(d[2]), **({"depends_on": list(d[3])} if d[3] else {})}
     if k == "collection":
         return collection_md(d[1], d[2])
     if k == "cppfunction":
